@@ -231,10 +231,12 @@ class ProfileBase(metaclass=abc.ABCMeta):
         else:
             raise ValueError('invalid method, must be "max" or "sum"')
 
-        # NOTE: max and sum will never be NaN (automatically masked)
-        if normalization == 0:
+        # NOTE: the max is NaN if the profile is NaN everywhere (e.g.,
+        # all pixels are masked or the apertures do not overlap the data)
+        if normalization == 0 or not np.isfinite(normalization):
             warnings.warn('The profile cannot be normalized because the '
-                          'max or sum is zero.', AstropyUserWarning)
+                          'max or sum is zero or non-finite.',
+                          AstropyUserWarning)
         else:
             # normalization_values accumulate if normalize is run
             # multiple times (e.g., different methods)
